@@ -263,13 +263,13 @@ type State struct {
 	sumStart       map[*ssa.BasicBlock]sumMark
 	loopIndex      map[ssa.Value]bool
 	Events         []Event
-	pfx            string                // call-frame prefix of names (InlineCalls)
-	aborted        bool                  // the path is abandoned (an oracle could not serve it)
-	iterN          int                   // exact back edges taken on this path
-	iterTag        string                // suffix of names created after them
+	pfx            string                  // call-frame prefix of names (InlineCalls)
+	aborted        bool                    // the path is abandoned (an oracle could not serve it)
+	iterN          int                     // exact back edges taken on this path
+	iterTag        string                  // suffix of names created after them
 	exact          map[*ssa.BasicBlock]int // loop headers executed exactly (remaining back-edge budget); copy-on-write
 	unrollN        []unrollFix             // trip counts fixed for unrolled loops (asserted when the bound is evaluated)
-	Defs           map[string]bitdom.Vec // TrackBits: opaque symbol -> its bits (copy-on-write)
+	Defs           map[string]bitdom.Vec   // TrackBits: opaque symbol -> its bits (copy-on-write)
 	defsOwned      bool
 	noZeroTripFork bool
 	stops          []stopFrame // merge points the current path is being run up to (innermost last)
